@@ -25,7 +25,10 @@ def base_cases(thorough):
   for c in families.c03_cases(False):
     if c.info['depth'] == 2 or (c.info['depth'] == 8 and c.info['shape'] in ('tc_right', 'counter_set')): out.append(c)
   for i, c in enumerate(families.c04_cases(False)):
-    if i % (40 if thorough else 160) == 0: out.append(c)
+    if i % (40 if thorough else 160) == 0:
+      try: functor_model.expand(c.program)
+      except functor_model.FunctorArgumentError: continue     # only valid programs are corrupted
+      out.append(c)
   return out
 
 
@@ -118,6 +121,9 @@ def corruptions(case):
   # annotation of a missing predicate
   for ann in ('@OrderBy(Nope9, "col0");', '@Limit(Nope9, 1);', '@NoInject(Nope9);', '@With(Nope9);', '@NoWith(Nope9);'):
     out.append(('annotation-of-missing-predicate', Program(stmts + [Ann(ann)], prog.engine, prog.type_checking), 'invalid', ['Nope9']))
+    # ... and the same after a valid annotation of the same kind (the check must not stop at the first good subject)
+    good = ann.replace('Nope9', case.preds[0])
+    out.append(('annotation-of-missing-predicate', Program(stmts + [Ann(good), Ann(ann)], prog.engine, prog.type_checking), 'invalid', ['Nope9']))
   return out
 
 
